@@ -829,8 +829,17 @@ func AddStructDefaults(t *rapid.T, m *Model) int {
 			// Python constructor then passes it as a keyword argument)
 			var obj map[string]any
 			if err := json.Unmarshal([]byte(doc.JSON), &obj); err == nil {
+				// a definition made of constants only is itself concrete: naming its
+				// constants makes the default equal to it, the disjunction collapses
+				// and cog sees no reference at all (thorough seed 5) — not kept there
+				allConst := true
 				for _, tf := range target.Type.Fields {
-					if v, has := obj[tf.Name]; has && (v == nil || (tf.Type.Const != nil && !keepConstants)) {
+					if rtf := m.Resolve(tf.Type); tf.Type.Const == nil && rtf.Const == nil && !(rtf.Kind == KEnum && len(rtf.Members) < 2) {
+						allConst = false
+					}
+				}
+				for _, tf := range target.Type.Fields {
+					if v, has := obj[tf.Name]; has && (v == nil || (tf.Type.Const != nil && (!keepConstants || allConst))) {
 						delete(obj, tf.Name)
 					}
 					// a single-member enum is a constant for CUE: naming it makes the
